@@ -755,8 +755,9 @@ def scen_mp4(G, name, box, lazy, mode):
         except core.BoundExceeded as e:
             core.ctx().max_decisions *= 20
             kind, val = 'RUNS-WITHOUT-BOUND', str(e)
+    site = None if kind in ('ok', 'RUNS-WITHOUT-BOUND') else _LAST['site']
     return {'file': name, 'box': path, 'offset': start, 'size_bytes': bs, 'cut': cut, 'outcome': kind,
-            'value': val if kind != 'ok' else None, 'site': _LAST['site'] if kind != 'ok' else None}
+            'value': val if kind != 'ok' else None, 'site': site}
 
 
 def h_mp4(sx, name, box, lazy, mode):
